@@ -64,6 +64,7 @@ type World struct {
 
 type parkedG struct {
 	gid    uint64
+	epoch  int
 	op     string
 	resume chan error // nil = proceed, errAbandon = Goexit, other = fail the op
 }
@@ -132,7 +133,7 @@ func (w *World) hook(op string, args ...any) error {
 	if _, seen := w.threadIndex(g); !seen {
 		w.order = append(w.order, g)
 	}
-	p := &parkedG{gid: g, op: op, resume: make(chan error, 1)}
+	p := &parkedG{gid: g, epoch: w.epoch, op: op, resume: make(chan error, 1)}
 	w.parked[g] = p
 	w.cond.Broadcast()
 	w.mu.Unlock()
@@ -141,7 +142,9 @@ func (w *World) hook(op string, args ...any) error {
 		w.mu.Lock()
 		w.dead[g] = true
 		// an abandoned goroutine no longer counts
-		w.active--
+		if p.epoch == w.epoch {
+			w.active--
+		}
 		w.cond.Broadcast()
 		w.mu.Unlock()
 		runtime.Goexit()
@@ -496,4 +499,99 @@ func mkDevice(eui, appeui protocol.EUI, addr uint32, appkey, nwk, app []byte, fu
 	copy(d.NwkSKey.Key[:], nwk)
 	copy(d.AppSKey.Key[:], app)
 	return d
+}
+
+// ---------- stepped execution: one frame, operation by operation ----------
+
+func gateName(op string) string {
+	if op == "GetDeviceByDevAddr" || op == "GetDeviceByEUI" {
+		return "GetDevice"
+	}
+	return op
+}
+
+// settled: every live pipeline goroutine is parked at a gate (or none is running) and nothing is in a channel
+func (w *World) settledLocked() bool {
+	atHandoff := 0
+	for _, p := range w.parked {
+		if p.op == "handoff:encOutput" {
+			atHandoff++
+		}
+	}
+	return w.active == len(w.parked) && w.inflight == atHandoff
+}
+
+// runStepped feeds one packet and lets the handlers run one storage / buffer operation at a
+// time. The operation with index crashAt (0-based) is not executed: its goroutine is abandoned
+// there (crashAt < 0: run to completion). Operations whose index is in fails return an injected
+// error instead of running. Returns the names of the operations that were let through.
+func (w *World) runStepped(p server.GatewayPacket, crashAt int, fails map[int]bool) ([]string, string) {
+	w.mu.Lock()
+	w.stepped = true
+	w.parked = map[uint64]*parkedG{}
+	w.mu.Unlock()
+	w.inject(p)
+	var trace []string
+	idx := 0
+	status := "done"
+	deadline := time.Now().Add(20 * time.Second)
+	for {
+		w.mu.Lock()
+		for !w.settledLocked() {
+			if time.Now().After(deadline) {
+				w.mu.Unlock()
+				return trace, "HUNG"
+			}
+			waitCond(w.cond, 20*time.Millisecond)
+		}
+		if len(w.parked) == 0 {
+			w.mu.Unlock()
+			break
+		}
+		var pg *parkedG
+		for _, x := range w.parked {
+			if pg == nil || x.gid < pg.gid {
+				pg = x
+			}
+		}
+		delete(w.parked, pg.gid)
+		if idx == crashAt {
+			w.mu.Unlock()
+			pg.resume <- errAbandon
+			status = "crashed"
+			break
+		}
+		w.mu.Unlock()
+		trace = append(trace, gateName(pg.op))
+		if fails[idx] {
+			pg.resume <- errInjected
+		} else {
+			pg.resume <- nil
+		}
+		idx++
+	}
+	w.mu.Lock()
+	w.stepped = false
+	w.mu.Unlock()
+	return trace, status
+}
+
+// restart: the process is gone (whatever was parked dies, the buffer and the routers with it);
+// a fresh server opens the same database file
+func (w *World) restart() {
+	w.mu.Lock()
+	for g, p := range w.parked {
+		delete(w.parked, g)
+		p.resume <- errAbandon
+	}
+	w.stepped = false
+	w.mu.Unlock()
+	time.Sleep(2 * time.Millisecond)
+	w.store.VerifCloseDB()
+	w.mu.Lock()
+	w.epoch++
+	w.active, w.inflight = 0, 0
+	w.trace, w.downs, w.pubs = nil, nil, nil
+	w.mu.Unlock()
+	w.open()
 }
